@@ -318,7 +318,12 @@ _ctx_by_lang = {}
 
 def lang_ctx(scratch, lang):
     if lang not in _ctx_by_lang:
-        _ctx_by_lang[lang] = new_ctx(scratch, lang_code=lang)
+        ctx = new_ctx(scratch, lang_code=lang)
+        mod_ns = ctx.NAMESPACE_DATA["Module"]
+        ctx.add_page(mod_ns["name"] + ":ustring:ustring", mod_ns["id"], USTRING_STUB, model="Scribunto")
+        ctx.add_page(mod_ns["name"] + ":e", mod_ns["id"], "return {main = function(frame) return 'E' end}", model="Scribunto")
+        ctx.db_conn.commit()
+        _ctx_by_lang[lang] = ctx
     return _ctx_by_lang[lang]
 
 
